@@ -54,6 +54,40 @@ def judge_chunks(ctx, trace, k):
     return verdicts
 
 
+def selftest(ctx, ev):
+    """corrupt one projected field / drop one recorded call and require the judge to reject"""
+    import copy
+    starts = [i for i, e in enumerate(ev) if e["ev"] == "reset"]
+    tr = None
+    for a, b in zip(starts, starts[1:] + [len(ev)]):
+        t = ev[a:b]
+        wi = [i for i, e in enumerate(t) if e["ev"] == "write" and e["out"] == "ok" and e["desc_ver"] == e["par_ver"]]
+        ci = [i for i, e in enumerate(t) if e["ev"] == "compute" and e["out"] == "ok"]
+        if wi and ci and ci[0] < wi[0]:
+            tr, w0, c0 = t, wi[0], ci[0]
+            break
+    if tr is None:
+        raise vlib.Inconclusive("selftest: no suitable trace")
+    res = []
+
+    def judge(t, name):
+        d = ctx.work.sub("selftest-enc-" + name)
+        p = os.path.join(d, "part.ndjson")
+        vlib.write_ndjson(p, t)
+        vd, n, r = vlib.judge(d, "Trace_EncoderObject", p, timeout=600)
+        return vd
+    t1 = copy.deepcopy(tr); t1[w0]["par_ver"] = -1                 # the volumes hold blocks of no recorded version
+    t2 = copy.deepcopy(tr); del t2[c0]                              # ComputeParityData call not recorded
+    for name, t, want in (("parity version unknown", t1, "X02."), ("Compute call dropped from the log", t2, "X02.conf.write")):
+        vd = judge(t, name.split()[0])
+        ok = any(v["clause"].startswith(want) for v in vd)
+        vlib.log("[X02] selftest %s: %s" % (name, "rejected" if ok else "NOT REJECTED"))
+        res.append({"module": "Trace_EncoderObject", "corruption": name, "rejected": ok, "clauses": sorted({v["clause"] for v in vd})})
+        if not ok:
+            raise vlib.Inconclusive("binding self-test failed: %s accepted" % name)
+    return res
+
+
 def run(ctx):
     ctx.mc("MC_EncoderObject", "MC_EncoderObject.cfg", "encoder object model", workers=4, timeout=600)
 
@@ -61,6 +95,8 @@ def run(ctx):
         out = ctx.drive(["encobj", "-n", "150" if not ctx.thorough else "2000"], out_name="encobj.ndjson")
         ev = vlib.read_ndjson(out)
         vd = judge_chunks(ctx, out, 8)
+        if ctx.selftest and not ctx.extra.get("binding_selftest"):
+            ctx.extra["binding_selftest"] = selftest(ctx, ev)
         ctx.traces = sum(1 for e in ev if e.get("ev") == "reset")
         ctx.extra["writes_observed"] = sum(1 for e in ev if e.get("ev") == "write")
         ctx.extra["inconsistent_sets_written_successfully"] = sum(1 for e in ev if e.get("ev") == "write" and e["out"] == "ok" and e["desc_ver"] != e["par_ver"])
